@@ -21,6 +21,7 @@ From XV Require Corr.RunC09.
 From XV Require Corr.RunC14b.
 From XV Require Corr.RunC04.
 From XV Require Corr.RunC11.
+From XV Require Corr.RunC12.
 (* REQUIRE-INSERTION-POINT: add "From XV Require Corr.RunCxx." above this line *)
 Open Scope Z_scope.
 
@@ -28,6 +29,7 @@ Definition dispatch (prop : Z) : sx -> sx :=
   if prop =? 17 then RunC17.run_C17 else
   if prop =? 15 then RunC15.run_C15 else
   if prop =? 19 then RunC19.run_C19 else
+  if prop =? 12 then RunC12.run_C12 else
   if (prop =? 5) || (prop =? 12) then RunRecv.run_recv else
   if prop =? 9 then RunC09.run_C09 else
   if prop =? 20 then RunC20.run_C20 else
